@@ -28,6 +28,7 @@ SCENARIOS = [
     (r'__await__\.wait/ensures:complete_at_return_inside_handlers', 'rp_await_gives_up.py'),
     (r'__await__\.wait/callsite:get_nowait/requires', 'rp_fifo_inversion.py'),
     (r'BaseEvent\.event_bus/ensures', 'rp_event_bus_after_forward.py'),
+    (r'BaseEvent\.event_cancel_pending_child_processing/', 'rp_cancel_walk_family.py'),
     (r'BaseEvent\.(event_are_all_children_complete|event_mark_complete_if_all_handlers_completed)/', 'rp_completion_descendants.py'),
     (r'event_results_by_handler_name/safety:dictcomp_keys_distinct', 'rp_by_handler_name_duplicates.py'),
     (r'BaseEvent\.(event_results_filtered|event_results_by_handler_id|event_results_list|event_result)/(ensures:|raises:requested_raise)', 'rp_accessor_family.py'),
